@@ -25,6 +25,7 @@
 import JsonC.Props.C04
 import JsonC.Spec.Rfc8259
 import JsonC.Lemmas.TokenerXRej5
+import JsonC.Lemmas.TokenerXTrail
 import JsonC.Props.C01
 
 namespace JsonC.Tokener
@@ -204,6 +205,21 @@ theorem strict_rejects_extensions (lc : Libc) (hl : LibcSpec lc) (depth : Int) (
   have hat : t.allowTrailing = false := by rw [new_eq_fresh hnew]; simp [Tok.allowTrailing, freshTok, hland]
   exact xtop_level_strict lc hl t (new_wf depth 1 t hnew) hst hv hhs (hstrict.mpr rfl) hat x hok hfit hknf
     (by rw [hmd]; omega) hext
+
+/-- **trailing non-whitespace after the value, on whole documents**: any RFC 8259 text followed by a
+byte that is neither white space, NUL nor '/' (separated from the value by white space, or one of
+`,` `]` `}`), and then anything: STRICT alone fails with "unexpected character"; default mode and
+STRICT|ALLOW_TRAILING_CHARS (flag words 0, 2, 3) succeed with the document's value and report the
+end of the text as the end position. -/
+theorem trailing_bytes (lc : Libc) (hl : LibcSpec lc) (depth : Int) (f : Nat) (hf : f = 0 ∨ f = 1 ∨ f = 2 ∨ f = 3) (t : Tok)
+    (hnew : Tokener.new depth f = some t) (x : Rfc8259.Text) (hok : x.doc.ok = true) (hknf : x.doc.keysNulFree = true)
+    (hfit : (f = 1 ∨ f = 3) → x.doc.intsFit = true) (hdepth : x.doc.nest + 1 ≤ depth.toNat)
+    (g : UInt8) (hg0 : g ≠ 0) (hgw : isWs g = false) (hg47 : g ≠ 47) (hsep : x.trail ≠ [] ∨ Follow g) (more : Bytes) :
+    let r := parseEx lc t (x.text ++ g :: more)
+    (f = 1 → r.err = .unexpected ∧ r.value = none) ∧
+    (f ≠ 1 → r.err = .success ∧ r.value = some x.doc.denote ∧ r.offset = x.text.length) ∧
+    r.stuck = false ∧ r.fault = none :=
+  trailing_bytes_top lc hl depth f hf t hnew x hok hknf hfit hdepth g hg0 hgw hg47 hsep more
 
 open Rfc8259X in
 /-- a text without extensions is the RFC 8259 text it stands for (those are C01's) -/
